@@ -446,7 +446,7 @@ theorem event_alias_sem (n a : String) (e : Expr) (ev : Event) (ha : a ≠ "") (
 end
 
 -- non-vacuity: `t as A {@A.x > x}` is stored as `{x > x}`
-example : mkSimpleEvent "t" (some "A") (.expr (.bin 1 ">" (.field 2 (.var 64 "A") "x") (.field 2 (.this 64) "x"))) =
-    .ok (.simple "t" (some "A") (.expr (.bin 1 ">" (.field 2 (.this 64) "x") (.field 2 (.this 64) "x")))) := by rfl
+example : mkSimpleEvent "t" (some "A") (.expr (.bin T.BOOL ">" (.field T.NUMBER (.var T.MESSAGE "A") "x") (.field T.NUMBER (.this T.MESSAGE) "x"))) =
+    .ok (.simple "t" (some "A") (.expr (.bin T.BOOL ">" (.field T.NUMBER (.this T.MESSAGE) "x") (.field T.NUMBER (.this T.MESSAGE) "x")))) := by rfl
 
 end Hpl
